@@ -15,6 +15,7 @@ import (
 	"strings"
 	"sync"
 	"testing"
+	"time"
 
 	"git.arvados.org/arvados.git/sdk/go/arvadosclient"
 )
@@ -175,6 +176,7 @@ func TestVerifC12(t *testing.T) {
 		stage = "c12"
 	}
 	cs := vNewCases(stage)
+	apiErrs := 0 // discovery through the API path failed (each failure costs discoverServices' one-minute timeout)
 	for i := 0; i < n; i++ {
 		if only >= 0 && i != only {
 			continue
@@ -198,6 +200,7 @@ func TestVerifC12(t *testing.T) {
 		var final []c12Item
 		var lists [][]c12Item
 		var discTags []string
+		discErr := ""
 		for len(local) < nsvc {
 			kind := 0
 			switch x := r.Intn(20); {
@@ -251,6 +254,11 @@ func TestVerifC12(t *testing.T) {
 			// half of the discovery cases go through the API path: discoverServices -> cached poller ->
 			// loadKeepServers on every operation, a new list being picked up after RefreshServiceDiscovery
 			viaAPI := r.Chance(1, 2)
+			if viaAPI && apiErrs >= 2 {
+				// two concrete failing inputs are enough; do not spend a minute per case
+				viaAPI = false
+				discTags = append(discTags, "api-path-disabled-after-errors")
+			}
 			if viaAPI {
 				kc.Arvados = c12Arv
 				discTags = append(discTags, "discovery-via-api-poll")
@@ -260,9 +268,23 @@ func TestVerifC12(t *testing.T) {
 			for k, l := range lists {
 				if viaAPI {
 					c12API.set(c12JSON(l))
-					kc.RefreshServiceDiscovery() // no-op before the first discovery of this process
-					if err := kc.discoverServices(); err != nil {
-						t.Fatalf("discoverServices: %v", err)
+					// (RefreshServiceDiscovery is a no-op before the first discovery of this process.)  Not returning
+					// within a minute — the margin discoverServices itself uses — is a judged observation.
+					refreshed := make(chan struct{})
+					go func() { kc.RefreshServiceDiscovery(); close(refreshed) }()
+					var err error
+					select {
+					case <-refreshed:
+						err = kc.discoverServices()
+					case <-time.After(time.Minute):
+						err = fmt.Errorf("RefreshServiceDiscovery did not return within a minute")
+					}
+					if err != nil {
+						// judged, not fatal: the client ends up without (or with stale) roots for this list
+						discErr = fmt.Sprintf("discoverServices (list %d): %v", k, err)
+						apiErrs++
+						kc.disableDiscovery = true // do not wait another minute in every later call of this case
+						break
 					}
 				} else if err := kc.LoadKeepServicesFromJSON(c12JSON(l)); err != nil {
 					t.Fatalf("LoadKeepServicesFromJSON: %v", err)
@@ -286,7 +308,7 @@ func TestVerifC12(t *testing.T) {
 				gwUUIDs = append(gwUUIDs, u)
 			}
 			sort.Strings(gwUUIDs)
-			if len(local) == 0 {
+			if len(local) == 0 && discErr == "" {
 				t.Fatalf("case %d: no local roots after discovery", i)
 			}
 		} else {
@@ -361,7 +383,10 @@ func TestVerifC12(t *testing.T) {
 		keep := make([]bool, len(uu))
 		wr := make([]bool, len(uu))
 		sub := map[string]string{}
-		dropOne := r.Intn(len(uu))
+		dropOne := 0
+		if len(uu) > 0 {
+			dropOne = r.Intn(len(uu))
+		}
 		for k, u := range uu {
 			keep[k] = k != dropOne
 			if r.Chance(1, 6) {
@@ -412,10 +437,13 @@ func TestVerifC12(t *testing.T) {
 		term := fmt.Sprintf("{| c_hash := %s; c_lists := %s; c_local := %s; c_writable := %s; c_keep := %s; c_gw := %s; c_loc := %s;\n   o_sorted := %s; o_bal := %s; o_sub := %s; o_get := %s; o_getreq := %s; o_putreq := %s |}",
 			gStr(hash), gList(lts), gList(svcs), gBools(wr), gBools(keep), gList(gws), gStr(loc),
 			gStrs(oSorted), gStrs(oBal), gStrs(oSub), gStrs(oGet), gStrs(oGetReq), gStrs(oPutReq))
-		desc := map[string]interface{}{"index": i, "hash": hash, "discovery_lists": lists, "local": local, "writable": writable, "gateways": gw, "locator": loc,
+		desc := map[string]interface{}{"index": i, "hash": hash, "discovery_lists": lists, "discovery_error": discErr, "local": local, "writable": writable, "gateways": gw, "locator": loc,
 			"sorted": oSorted, "balancer": oBal, "subset": oSub, "getSortedRoots": oGet, "get_requests": oGetReq, "put_requests": oPutReq}
 		tags := []string{fmt.Sprintf("services=%d", bucket(len(uu))), fmt.Sprintf("hints=%d", nhints), fmt.Sprintf("hints-naming-local-service=%d", hintLocal)}
 		tags = append(tags, discTags...)
+		if discErr != "" {
+			tags = append(tags, "discovery-error")
+		}
 		if tieMode {
 			tags = append(tags, "shared-suffix")
 		}
